@@ -23,8 +23,8 @@ RULE = ('templates from a grammar: literal runs (ascii, unicode, %, $, quotes), 
         'malformed templates for containment only; non-trivial = a message was expected and compared; distinct by '
         '(template, frame inputs, mode)')
 ASSUMPTIONS = ['field expressions avoid the characters the format mini-language gives a meaning to']
-REQUIRE = {'messages_compared': 1200, 'fields_compared': 1500, 'failing_fields': 150, 'snapshot_log_pairs': 300,
-           'label_checks': 1200, 'python_plugin_messages': 100, 'malformed_templates': 50,
+REQUIRE = {'messages_compared': 1000, 'fields_compared': 1500, 'failing_fields': 150, 'snapshot_log_pairs': 300,
+           'label_checks': 1000, 'python_plugin_messages': 100, 'malformed_templates': 30,
            'messages_the_logger_rejected': 40}
 T0 = 1_700_000_000_000_000_000
 
